@@ -353,9 +353,12 @@ def _no_vroot(eo, bank):
     """The TIGER-XML file is written without a node above the top constituent:
     possible when every root has one constituent child - and that child is not
     itself labelled VROOT (a file cannot say "a VROOT below the root")."""
+    # (the child may be the only token of the sentence: then the file has no
+    # <nt> at all for it)
     return bool(eo.get('no_vroot')) and all(
-        len(sp['root']['c']) == 1 and 'c' in sp['root']['c'][0]
+        len(sp['root']['c']) == 1
         and not str(sp['root']['c'][0].get('l', '')).startswith('VROOT')
+        and not str(sp['root']['c'][0].get('p', '')).startswith('VROOT')
         for sp in bank)
 
 
@@ -512,6 +515,8 @@ def run_case(ctx, case, probe_obj=None):
         ctx.stratum('export v4')
     if fmt == 'tigerxml' and _no_vroot(eo, bank):
         ctx.stratum('tigerxml without VROOT node')
+        if any('c' not in sp['root']['c'][0] for sp in bank):
+            ctx.stratum('tigerxml: one-token sentence without any <nt>')
     if any(len(n.get('c', [])) > 6 for sp in bank for n in gen.walk(sp['root'])):
         ctx.stratum('arity > 6')
     ctx.stratum('format ' + fmt)
